@@ -9,12 +9,19 @@ pub mod object;
 pub mod parser;
 pub mod vm;
 
+#[cfg(feature = "verif")]
+pub mod verif;
+
 use crate::{compiler::Compiler, object::Error, object::Object, parser::parse, vm::VM};
 
 /// Evaluates the given program string without retaining any state in between calls
 /// This may return a heap-allocated object that needs its memory managed
 pub fn eval(program: &str) -> Result<Object, Error> {
     let ast = parse(program)?;
+    #[cfg(feature = "verif")]
+    verif::phase();
     let code = Compiler::new().compile_ast(&ast)?;
+    #[cfg(feature = "verif")]
+    verif::phase();
     VM::new().run(code)
 }
